@@ -64,6 +64,10 @@ def eval_cases(cases, tag):
                    ";\n".join(conv(c) for c in chunk), "].",
                    "Definition M := Eval vm_compute in %s cases." % fn, "Print M."]
             rc, out, _ = core.coq_eval("cases_%s_%s_%s_%d_%d" % (PROP, tag, ty, os.getpid(), k), "\n".join(txt))
+            if rc != 0 and "inconsistent assumptions" in out:
+                # a concurrent check regenerated Gen/Consts.v between our build and this evaluation: rebuild, retry once
+                core.coq_build()
+                rc, out, _ = core.coq_eval("cases_%s_%s_%s_%d_%d" % (PROP, tag, ty, os.getpid(), k), "\n".join(txt))
             if rc != 0:
                 raise RuntimeError("coqc on the generated cases failed: " + out[-1500:])
             m = re.search(r"M\s*=\s*(.*?)\s*:\s*list", out, re.S)
